@@ -1,14 +1,198 @@
-(* Props/C07.v -- placeholder until the parser proofs land: entry points agree definitionally. *)
-From JsonSyntax Require Import Base.Prelude Base.Value Base.Unicode Model.Parser Model.EntryPoints.
+(* Props/C07.v -- parse errors point at the first offending character.  Statements only.
 
-Theorem C07_entry_points_text : forall cs,
-  parse_str cs = parse_str_with strict cs /\
-  parse_str cs = parse_utf8 cs /\
-  parse_str cs = parse_utf8_with strict cs /\
-  parse_str cs = parse_infallible_utf8 cs /\
-  parse_str cs = parse_utf8_infallible_with strict cs /\
-  parse_str cs = parse (chars cs) /\
-  parse_str cs = parse_with strict (chars cs).
-Proof. exact (fun cs => conj eq_refl (conj eq_refl (conj eq_refl (conj eq_refl (conj eq_refl (conj eq_refl eq_refl)))))). Qed.
+   Vocabulary (Spec/Grammar.v): [text_items cs] pairs every code point of a text with its UTF-8
+   length, [blen] adds these lengths up (a byte offset), [abnf_text cs] says that cs is a JSON
+   text of the RFC 8259 grammar in which every \uXXXX escape is allowed, and
+   [viable p := exists t, abnf_text (p ++ t)] that p can still be extended to such a text.
+   Errors (Model/Parser.v): EUnexpected offset (Some c | None), EMissingLow start end high,
+   EInvalidLow start end high low, EInvalidCodePoint start end unit, EInvalidUtf8 offset.
+   Proofs: Proofs/ErrorInv.v, ErrorDeterminism.v, ErrorViable.v, ErrorProofs.v. *)
+From JsonSyntax Require Import Base.Prelude Base.Value Base.Unicode Base.Source Model.Parser Model.EntryPoints
+  Spec.Grammar Spec.Utf8Spec Proofs.ErrorInv Proofs.ErrorDeterminism Proofs.ErrorProofs.
 
-Print Assumptions C07_entry_points_text.
+(* esc is one escape \uXXXX whose four hexadecimal digits denote the UTF-16 code unit cu *)
+Definition escape_of (esc : list N) (cu : N) : Prop :=
+  exists h3 h2 h1 h0 d3 d2 d1 d0, esc = [0x5C; 0x75; h3; h2; h1; h0] /\
+    hexdig h3 = Some d3 /\ hexdig h2 = Some d2 /\ hexdig h1 = Some d1 /\ hexdig h0 = Some d0 /\
+    cu = d3 * 4096 + d2 * 256 + d1 * 16 + d0.
+
+(* every offset an error carries *)
+Definition offsets_of (e : perr) : list N :=
+  match e with
+  | EStream p | EUnexpected p _ | EInvalidUtf8 p => [p]
+  | EInvalidCodePoint a b _ | EMissingLow a b _ | EInvalidLow a b _ _ => [a; b]
+  end.
+
+(* ---------- E1: the offset of an unexpected-character error ---------- *)
+(* The reported offset is the byte length of a viable prefix p of the input; either p is the
+   whole input and no character is reported, or the reported character c0 is the one following
+   p and p ++ [c0] is no longer viable. *)
+Theorem C07_unexpected : forall cs pos c,
+  Forall (fun x => x <= 0x10FFFF) cs ->
+  parse_str cs = Err (EUnexpected pos c) ->
+  exists p r, cs = p ++ r /\ blen (text_items p) = pos /\ viable p /\
+    ((r = [] /\ c = None) \/
+     (exists c0 r', r = c0 :: r' /\ c = Some c0 /\ ~ viable (p ++ [c0]))).
+Proof. exact unexpected_longest_viable_prefix. Qed.
+
+(* viability is closed under taking prefixes, hence p above is THE LONGEST viable prefix *)
+Theorem C07_viable_prefix_closed : forall p q, viable (p ++ q) -> viable p.
+Proof. exact viable_prefix_closed. Qed.
+
+Theorem C07_unexpected_longest : forall cs pos c,
+  Forall (fun x => x <= 0x10FFFF) cs ->
+  parse_str cs = Err (EUnexpected pos c) ->
+  exists p r, cs = p ++ r /\ blen (text_items p) = pos /\ viable p /\ c = hd_error r /\
+    forall p' r', cs = p' ++ r' -> viable p' -> (length p' <= length p)%nat.
+Proof. exact unexpected_offset_is_longest_viable. Qed.
+
+(* the ingredients, for every pair of option records with o2 at least as lenient as o1:
+   an accepted text stays accepted with the same result, an Unexpected error stays the same *)
+Theorem C07_option_independence : forall o1 o2 s,
+  (trunc o1 = true -> trunc o2 = true) /\ (inval o1 = true -> inval o2 = true) ->
+  match parse_with o1 s with
+  | Ok r => parse_with o2 s = Ok r
+  | Err (EUnexpected p c) => parse_with o2 s = Err (EUnexpected p c)
+  | _ => True
+  end.
+Proof. exact option_independence. Qed.
+
+(* ---------- E2: the reported character, character boundaries ---------- *)
+Theorem C07_reported_char : forall o cs p c,
+  parse_str_with o cs = Err (EUnexpected p c) ->
+  exists a b, cs = a ++ b /\ p = blen (text_items a) /\ c = hd_error b.
+Proof. exact str_reported_char. Qed.
+
+Theorem C07_reported_none_iff : forall o cs p c,
+  parse_str_with o cs = Err (EUnexpected p c) -> (c = None <-> p = blen (text_items cs)).
+Proof. exact str_reported_none_iff. Qed.
+
+(* byte input: the offset counts the bytes of a prefix a of the decoded characters, the reported
+   character is the next decoded character; none is reported only on well-formed input *)
+Theorem C07_reported_char_slice : forall o bs p c,
+  parse_slice_with o bs = Err (EUnexpected p c) ->
+  exists a b, fst (utf8_decode bs) = a ++ b /\ p = N.of_nat (length (utf8_encode_all a)) /\ c = hd_error b /\
+              (c = None -> snd (utf8_decode bs) = true).
+Proof. exact slice_reported_char. Qed.
+
+(* every offset of every error variant is a character boundary of the input *)
+Theorem C07_boundaries : forall o cs e q,
+  parse_str_with o cs = Err e -> In q (offsets_of e) ->
+  exists a b, cs = a ++ b /\ q = blen (text_items a).
+Proof. exact str_boundaries. Qed.
+
+Theorem C07_boundaries_slice : forall o bs e q,
+  parse_slice_with o bs = Err e -> In q (offsets_of e) ->
+  exists a rest, scalars a /\ bs = utf8_encode_all a ++ rest /\ q = N.of_nat (length (utf8_encode_all a)).
+Proof. exact slice_boundaries. Qed.
+
+(* ---------- E3: ill-formed UTF-8 ---------- *)
+(* cs = the longest well-formed prefix, decoded; k = its length in bytes.  On ill-formed input
+   either InvalidUtf8 k is reported and the well-formed prefix alone is accepted or merely
+   runs out of input, or the error is the one the prefix alone gives, located before k. *)
+Theorem C07_utf8 : forall bs e,
+  parse_slice bs = Err e ->
+  let cs := fst (utf8_decode bs) in
+  let k := blen (text_items cs) in
+  (snd (utf8_decode bs) = true /\ parse_str cs = Err e) \/
+  (snd (utf8_decode bs) = false /\
+   ((e = EInvalidUtf8 k /\
+     ((exists r, parse_str cs = Ok r) \/ parse_str cs = Err (EUnexpected k None)))
+    \/
+    (parse_str cs = Err e /\ (forall p, e <> EInvalidUtf8 p) /\
+     (forall q, In q (offsets_of e) -> q <= k) /\
+     (forall p c, e = EUnexpected p c -> p < k /\ c <> None)))).
+Proof. exact utf8_error_position. Qed.
+
+(* k is where the first ill-formed sequence starts *)
+Theorem C07_utf8_first_ill_formed : forall bs,
+  snd (utf8_decode bs) = false ->
+  let cs := fst (utf8_decode bs) in
+  blen (text_items cs) = N.of_nat (length (utf8_encode_all cs)) /\
+  (exists rest, bs = utf8_encode_all cs ++ rest /\ rest <> [] /\ utf8_decode1 rest = None) /\
+  (forall cs', scalars cs' -> (exists r, bs = utf8_encode_all cs' ++ r) -> exists t, cs = cs' ++ t).
+Proof. exact utf8_first_ill_formed. Qed.
+
+Theorem C07_invalid_utf8_offset : forall o bs k,
+  parse_slice_with o bs = Err (EInvalidUtf8 k) ->
+  snd (utf8_decode bs) = false /\ k = N.of_nat (length (utf8_encode_all (fst (utf8_decode bs)))).
+Proof. exact slice_invalid_utf8. Qed.
+
+(* an input followed by a stream error: same outcome, or that stream error after the parser
+   ran out of input *)
+Theorem C07_stream_error_last : forall o u,
+  match parse_with o (map ParserSoundLex.inj u) with
+  | Ok r => parse_with o (map ParserSoundLex.inj u ++ [SErr]) = Ok r \/
+            parse_with o (map ParserSoundLex.inj u ++ [SErr]) = Err (EStream (blen u))
+  | Err e => (forall p, e <> EStream p) ->
+             parse_with o (map ParserSoundLex.inj u ++ [SErr]) = Err e \/
+             (parse_with o (map ParserSoundLex.inj u ++ [SErr]) = Err (EStream (blen u)) /\
+              exists p, e = EUnexpected p None /\ blen u <= p)
+  | _ => True
+  end.
+Proof. exact poisoned_mirror. Qed.
+
+(* ---------- E4: surrogate errors ---------- *)
+(* strict parsing: the span lies inside the offending escape(s), which denote the reported units *)
+Theorem C07_surrogate : forall cs,
+  (forall s e hi, parse_str cs = Err (EMissingLow s e hi) ->
+     exists p esc r, cs = p ++ esc ++ r /\ escape_of esc hi /\ is_high hi = true /\
+       blen (text_items p) <= s /\ s <= e /\ e <= blen (text_items (p ++ esc))) /\
+  (forall s e hi lo, parse_str cs = Err (EInvalidLow s e hi lo) ->
+     exists p esc1 esc2 r, cs = p ++ (esc1 ++ esc2) ++ r /\ escape_of esc1 hi /\ escape_of esc2 lo /\
+       is_high hi = true /\ is_low lo = false /\
+       blen (text_items p) <= s /\ s <= e /\ e <= blen (text_items (p ++ esc1 ++ esc2))) /\
+  (forall s e cp, parse_str cs = Err (EInvalidCodePoint s e cp) ->
+     exists p esc r, cs = p ++ esc ++ r /\ escape_of esc cp /\ is_low cp = true /\
+       blen (text_items p) <= s /\ s <= e /\ e <= blen (text_items (p ++ esc))).
+Proof. exact surrogate_span_inside. Qed.
+
+(* every option record, exact spans: from just after the backslash of the (last) offending escape
+   to its end; a missing low surrogate is detected on the element that follows the escape *)
+Theorem C07_surrogate_exact : forall o cs,
+  (forall a b hi, parse_str_with o cs = Err (EMissingLow a b hi) ->
+     exists p esc r, cs = p ++ esc ++ r /\ r <> [] /\ escape_of esc hi /\ is_high hi = true /\
+       a = blen (text_items p) + 1 /\ b = blen (text_items (p ++ esc))) /\
+  (forall a b hi lo, parse_str_with o cs = Err (EInvalidLow a b hi lo) ->
+     exists p esc1 esc2 r, cs = p ++ esc1 ++ esc2 ++ r /\ escape_of esc1 hi /\ escape_of esc2 lo /\
+       is_high hi = true /\ is_low lo = false /\
+       a = blen (text_items (p ++ esc1)) + 1 /\ b = blen (text_items (p ++ esc1 ++ esc2))) /\
+  (forall a b cp, parse_str_with o cs = Err (EInvalidCodePoint a b cp) ->
+     exists p esc r, cs = p ++ esc ++ r /\ escape_of esc cp /\ is_low cp = true /\
+       a = blen (text_items p) + 1 /\ b = blen (text_items (p ++ esc))).
+Proof. exact str_surrogate. Qed.
+
+(* ---------- the theorems are not vacuous: every variant, past offset 0, inside containers ---------- *)
+Example C07_examples_text :
+  parse_str (s2l "[1,{""k"":[tx") = Err (EUnexpected 10 (Some 0x78)) /\
+  parse_str (s2l "[1,{""k"":[tru") = Err (EUnexpected 12 None) /\
+  parse_str (s2l "[1,{""k"":""\uD800a""}]") = Err (EMissingLow 10 15 0xD800) /\
+  parse_str (s2l "[1,{""k"":""\uD800\uD800""}]") = Err (EInvalidLow 16 21 0xD800 0xD800) /\
+  parse_str (s2l "[1,{""k"":""ab\uDC00""}]") = Err (EInvalidCodePoint 12 17 0xDC00) /\
+  parse_str [0x5B; 0x22; 0xE9; 0x20AC; 0x1F600; 0x22; 0x78] = Err (EUnexpected 12 (Some 0x78)).
+Proof. vm_compute. repeat split. Qed.
+
+Example C07_examples_bytes :
+  parse_slice (s2l "[1,{""k"":""a" ++ [0xC0; 0xAF]) = Err (EInvalidUtf8 10) /\
+  parse_slice (s2l "[1 x" ++ [0xFF]) = Err (EUnexpected 3 (Some 0x78)) /\
+  parse_slice (s2l "[1,{""k"":""\uD800a" ++ [0xFF]) = Err (EMissingLow 10 15 0xD800) /\
+  parse_slice (s2l "tru" ++ [0xFF]) = Err (EInvalidUtf8 3).
+Proof. vm_compute. repeat split. Qed.
+
+Print Assumptions C07_unexpected.
+Print Assumptions C07_viable_prefix_closed.
+Print Assumptions C07_unexpected_longest.
+Print Assumptions C07_option_independence.
+Print Assumptions C07_reported_char.
+Print Assumptions C07_reported_none_iff.
+Print Assumptions C07_reported_char_slice.
+Print Assumptions C07_boundaries.
+Print Assumptions C07_boundaries_slice.
+Print Assumptions C07_utf8.
+Print Assumptions C07_utf8_first_ill_formed.
+Print Assumptions C07_invalid_utf8_offset.
+Print Assumptions C07_stream_error_last.
+Print Assumptions C07_surrogate.
+Print Assumptions C07_surrogate_exact.
+Print Assumptions C07_examples_text.
+Print Assumptions C07_examples_bytes.
